@@ -18,8 +18,13 @@ func (ch *ComponentHandler) ServeHTTPBuffered(w http.ResponseWriter, r *http.Req
 	// This prevents partial responses from being written to the client.
 	buf := GetBuffer()
 	defer ReleaseBuffer(buf)
+	// The output of a failed render is discarded, so the scripts, CSS classes and
+	// once handles it recorded as rendered must not count as rendered either:
+	// the error handler may render components with the same request context.
+	restore := snapshotRenderState(r.Context())
 	err := ch.Component.Render(r.Context(), buf)
 	if err != nil {
+		restore()
 		if ch.ErrorHandler != nil {
 			w.Header().Set("Content-Type", ch.ContentType)
 			ch.ErrorHandler(r, err).ServeHTTP(w, r)
